@@ -103,6 +103,105 @@ def check_cert(ctx, fn, wire, ret_name, exp_name_prefix, issuer_comp, pub, sinfo
     return len(r['sig_value'])
 
 
+class AuditingSigner:
+    """A legal signer object: before it signs, it writes an audit record - another Data packet, signed with its own (ECDSA, hence
+    shorter-than-reserved) signer - from INSIDE write_signature_value, then delegates to the real issuing signer."""
+    def __init__(self, inner, rng, log):
+        self.inner = inner
+        self.log = log
+        self.audit_signer, self.audit_info = pkts.make_signer(rng, 'ecdsa256', [rc.comp(8, b'audit'), rc.comp(8, b'KEY'), rc.comp(8, b'\x01')])
+
+    def __getattr__(self, k):
+        return getattr(self.inner, k)
+
+    def __setattr__(self, k, v):
+        if k in ('inner', 'log', 'audit_signer', 'audit_info'):
+            object.__setattr__(self, k, v)
+        else:
+            setattr(self.inner, k, v)
+
+    def write_signature_info(self, signature_info):
+        return self.inner.write_signature_info(signature_info)
+
+    def get_signature_value_size(self):
+        return self.inner.get_signature_value_size()
+
+    def write_signature_value(self, wire, contents):
+        from ndn.encoding import make_data, MetaInfo
+        rec = bytes(make_data([rc.comp(8, b'audit'), rc.comp(8, b'rec%d' % len(self.log))], MetaInfo(), b'issuing', self.audit_signer))
+        self.log.append(rec)
+        return self.inner.write_signature_value(wire, contents)
+
+
+def check_two_stores(ctx, rng):
+    """Two on-disk key stores in one process hold a key of the SAME name (same identity, same explicit key id) with different key
+    material: whatever each store's signer issues verifies under that store's key - whichever store was used last."""
+    import os
+    import shutil
+    import tempfile
+    from ndn.security.keychain.keychain_sqlite3 import KeychainSqlite3
+    from ndn.security.tpm.tpm_file import TpmFile
+    from ndn.encoding import Name as _N
+    root = tempfile.mkdtemp(prefix='nvf-c16-stores-')
+    try:
+        stores = []
+        for lab in ('A', 'B'):
+            d = os.path.join(root, lab)
+            os.makedirs(os.path.join(d, 'tpm'))
+            KeychainSqlite3.initialize(os.path.join(d, 'pib.db'), 'tpm-file', os.path.join(d, 'tpm'))
+            kc = KeychainSqlite3(os.path.join(d, 'pib.db'), TpmFile(os.path.join(d, 'tpm')))
+            kc.touch_identity('/shared/site')
+            for kid in (b'k1', b'k2'):
+                kc.new_key('/shared/site', key_type='ec', key_id=kid.decode())
+            stores.append((lab, kc))
+        for rnd in range(ctx.n(6, 60)):
+            order = [0, 1] if rnd % 2 == 0 else [1, 0]
+            for kid in (b'k1', b'k2'):
+                key_name = [rc.comp(8, b'shared'), rc.comp(8, b'site'), rc.comp(8, b'KEY'), rc.comp(8, kid)]
+                signers = {}
+                for si in order:
+                    lab, kc = stores[si]
+                    try:
+                        if rnd % 3 == 2:
+                            kc.shutdown()                      # closed and opened again in between
+                            d = os.path.join(root, lab)
+                            kc = KeychainSqlite3(os.path.join(d, 'pib.db'), TpmFile(os.path.join(d, 'tpm')))
+                            stores[si] = (lab, kc)
+                        key = kc['/shared/site'][key_name]
+                        signers[si] = (kc.get_signer({'key': key_name}), bytes(key.key_bits), [bytes(c) for c in Name.normalize(key.default_cert().name)])
+                    except Exception as e:   # noqa
+                        ctx.report(f'two-stores-raises:{type(e).__name__}@{raising_site(e)[0]}', f'{e!r}', {'store': lab})
+                for si in order[::-1] + order:
+                    if si not in signers:
+                        continue
+                    sg, bits, loc = signers[si]
+                    subj_name = [rc.comp(8, b'subj%d' % rnd), rc.comp(8, b'KEY'), rc.comp(8, b'\x07')]
+                    _, subj = pkts.make_signer(rng, 'ecdsa256', subj_name)
+                    try:
+                        rn, wire = derive_cert(subj_name, 'ca', subj['pub'], sg, datetime.datetime(2024, 1, 1), 86400)
+                        r = rc.strict_data(bytes(wire), cert=True)
+                    except Exception as e:   # noqa
+                        ctx.report(f'two-stores-issue-raises:{type(e).__name__}', f'{e!r}', {'store': stores[si][0]})
+                        continue
+                    ctx.event('certificate-issued-by-one-of-two-stores-holding-the-same-key-name')
+                    ctx.case(('two-stores', rnd % 6, kid, si), nontrivial=True)
+                    ok = pkts.verify_independent({'kind': 'ecdsa256', 'pub': bits}, r['signed_portion'], r['sig_value'])
+                    if ok is not True:
+                        other_bits = signers.get(1 - si, (None, None, None))[1]
+                        other = other_bits is not None and pkts.verify_independent({'kind': 'ecdsa256', 'pub': other_bits}, r['signed_portion'], r['sig_value']) is True
+                        ctx.report('cert-signature-invalid:two-stores', f"store {stores[si][0]}'s signer for the key issued a certificate that does not verify under that store's key"
+                                   + (" - it verifies under the OTHER store's key of the same name" if other else ''), {'store': stores[si][0], 'key_id': kid.decode()})
+                    if r['sig_info'] is None or r['sig_info']['key_name'] != loc:
+                        ctx.report('cert-keylocator:two-stores', "the certificate does not name the issuing store's default certificate of the key", {'store': stores[si][0]})
+        for lab, kc in stores:
+            try:
+                kc.shutdown()
+            except Exception:   # noqa
+                pass
+    finally:
+        shutil.rmtree(root, ignore_errors=True)
+
+
 def run(ctx):
     ctx.rule = RULE
     rng = ctx.rng
@@ -161,6 +260,12 @@ def run(ctx):
             ctx.event('key-locator-configured-in-wire-form')
             if len(rc.enc_name(locator)) == 32:
                 ctx.event('key-locator-wire-form-32-octets')
+        audit_log = None
+        use_signer = signer
+        if rng.random() < 0.2:
+            audit_log = []
+            use_signer = AuditingSigner(signer, rng, audit_log)
+            ctx.event('issuer-signs-an-audit-record-from-inside-the-signing-call')
         _, subj = pkts.make_signer(rng, sk, key_name)
         pub = subj['pub'] if rng.random() < 0.9 else gen.rand_bytes(rng, rng.choice([0, 1, 91, 300]))
         if rng.random() < 0.25 and pub is subj['pub']:
@@ -221,11 +326,11 @@ def run(ctx):
                     icomp = gen.component(rng, gen.BORING_TYPES)
                     issuer = rng.choice([bytes(icomp), bytearray(icomp), memoryview(bytes(icomp))])   # a component of a parsed name is a memoryview
                 w.update(start=str(st), dur=dur, issuer=issuer if isinstance(issuer, str) else bytes(issuer).hex())
-                rn, wire = derive_cert(form, issuer, pub, signer, st, dur)
+                rn, wire = derive_cert(form, issuer, pub, use_signer, st, dur)
                 nb, na = fmt(start), fmt(start + datetime.timedelta(seconds=dur))
                 vclass = ('derive', start.year in (1999, 2000, 2024), dur in (0, 86400, 86399))
             elif which == 'self':
-                rn, wire = self_sign(form, pub, signer)
+                rn, wire = self_sign(form, pub, use_signer)
                 icomp = rc.comp(8, b'self')
                 now = datetime.datetime.now(UTC)
 
@@ -240,7 +345,7 @@ def run(ctx):
                     return d.year == now.year + 20 and (d.month, d.day) == (now.month, now.day)
                 vclass = ('self',)
             else:
-                rn, wire = sign_req(form, pub, signer)
+                rn, wire = sign_req(form, pub, use_signer)
                 icomp = rc.comp(8, b'cert-request')
                 now = datetime.datetime.now(UTC).replace(tzinfo=None)
 
@@ -263,6 +368,13 @@ def run(ctx):
             continue
         t1 = int(time.time() * 1000)
         sl = check_cert(ctx, which, wire, rn, key_name, icomp, pub, sinfo, nb, na, w, (t0, t1))
+        for rec in (audit_log or []):
+            try:
+                rr = rc.strict_data(rec)
+                if pkts.verify_independent(use_signer.audit_info, rr['signed_portion'], rr['sig_value']) is not True:
+                    ctx.report('audit-record-signature-invalid', 'the Data packet signed from inside the issuing signer does not verify', w)
+            except rc.Reject as e:
+                ctx.report(f'audit-record-malformed:{e.reason}', f'the Data packet signed from inside the issuing signer is not one exact TLV tree: {e}', w)
         ctx.case((which, ik, sk, sl, vclass), sample=w if i % 150 == 0 else None)
     seen = {k for k in ctx.classes if k.startswith('siglen-ecdsa256-')}
     ctx.extra['ecdsa256_der_lengths_seen'] = sorted(int(k.rsplit('-', 1)[1]) for k in seen)
@@ -272,7 +384,11 @@ def run(ctx):
     else:
         os.environ['TZ'] = old_tz
     time.tzset()
+    if ctx.shard == 0:
+        check_two_stores(ctx, rng)
+        ctx.need_event('certificate-issued-by-one-of-two-stores-holding-the-same-key-name')
     ctx.need_event('cert-checked')
+    ctx.need_event('issuer-signs-an-audit-record-from-inside-the-signing-call')
     ctx.need_class('local-time-zone-JST-9')
     ctx.need_class('public-key-encoding-ec-compressed')
     ctx.need_event('signer-reused-with-new-locator')
